@@ -1,9 +1,12 @@
 \* KernelArgs: signatures of <= 2 parameters over ParamsQuick, argument lists of <= 3 over ArgsQuick;
 \* InitWhenEmpty = TRUE (the repaired code)
+\* plus one signature per fixed-array parameter  [const] [typedef'd] T a[n],  12 base spellings x n in {1,2,4}
 SPECIFICATION Spec
 CONSTANTS
   ParamTypes <- ParamsQuick
   ArgKinds <- ArgsQuick
+  ArrayParams <- ArraysAll
+  ArrayArgs <- ArrayArgsAll
   MaxParams = 2
   MaxArgs = 3
   InitWhenEmpty = TRUE
